@@ -180,13 +180,13 @@ PROPS["C13"] = dict(
 
 # ------------------------------------------------------------------------------------- C01 / C02
 DM = "data_model::verif_kani"
-_DM_STUBS = ["ParsingInput::new -> the environment's answer: pattern matched or not, 1..3 split fields with symbolic bytes, or a constructed JSON document (regex engine and serde_json parser are environment)",
+_DM_STUBS = ["ParsingInput built directly by the harness = the environment's answer: pattern matched or not, 1..3 split fields with symbolic bytes, or a constructed JSON document (regex engine and serde_json parser are environment)",
              "std HashMap of data_model.rs -> /verif/kani/shim.rs", "regex::Regex::new -> Err (never reached: tables have no patterns)", "chrono Local time-zone lookups -> arbitrary answers", "alloc::fmt::format -> empty string"]
 PROPS["C01"] = dict(
     harnesses=[H(n, "data_model", DM, shape=sh, timeout=900, cost=c) for (n, sh, c) in [
         ("c01_split_int_default", "INT column on split field 1, DEFAULT present or not, pattern/field present or not", 300),
         ("c01_split_boolean", "BOOLEAN column on split field 1", 200),
-        ("c01_split_two_columns", "two INT columns on fields 1 and 2 in either order", 400),
+        ("c01_split_own_field", "INT column on split field g (g symbolic in 1..2) of a 3-entry split", 300),
         ("c01_split_array", "INT[] column from fields 1 and 2", 400)]],
     functions=["TableDefinition::extract, ColumnParsing::extract, ColumnParsing::extract_using_regex (Split arm), ColumnDefinition::default_value (src/data_model.rs)", "ValueType::parse INT arm (src/model.rs)"],
     bounds={"fields": "<= 2 bytes over {0-9, -, +, space, x}", "split result": "1..3 entries", "columns": "1..2 per table"},
@@ -204,5 +204,63 @@ PROPS["C02"] = dict(
     assumptions=[],
     outside=["serde_json::from_str (the JSON parser: duplicate keys, numbers beyond f64, invalid JSON)", "object field steps: serde_json's Map is an IndexMap over hashbrown, which cannot be shimmed",
              "CONVERT (string -> typed literal parsing)", "independence from regex columns of the same table"])
-PROPS["C06"]["harnesses"].append(H("c06_admission_two_columns", "data_model", DM, shape="admission rule: two INT columns, nullable/NOT NULL/DEFAULT symbolic", timeout=900, cost=400))
+PROPS["C06"]["harnesses"].append(H("c06_admission_two_columns", "data_model", DM, shape="admission rule: two INT columns, nullable/NOT NULL/DEFAULT symbolic", timeout=900, cost=400, tier="thorough"))
 PROPS["C06"]["functions"].append("TableDefinition::extract (NOT NULL cut), Row::any_result (src/data_model.rs)")
+
+# ------------------------------------------------------------------------------- C10 / C12 / C19
+_IO_STUBS = ["std::io::BufReader -> /verif/kani/shim.rs io::BufReader: a window on a symbolic file (content bytes, read position, visible length that each read may advance, read budget); read_line implements the documented BufRead::read_line contract",
+             "alloc::fmt::format -> empty string"]
+PROPS["C10"] = dict(
+    harnesses=[H("c10_follow_len2", "helpers", "helpers::verif_kani", shape="file of 2 bytes over {a,b,\\n}, arbitrary append/poll interleaving, <= 4 reads", timeout=900, cost=300),
+               H("c10_follow_len3", "helpers", "helpers::verif_kani", shape="file of 3 bytes, <= 5 reads", timeout=2400, cost=1200, tier="thorough")],
+    functions=["FollowFileIterator::new / next (src/helpers.rs)"],
+    bounds={"content": "2 (quick) or 3 (thorough) bytes over {a, b, newline} (b only in the first position)", "schedule": "the visible length advances by any amount before every read (every chunking of the appends x every placement of polls)",
+            "reads": "<= 4 / 5, then the follower is stopped", "items": "up to 3"},
+    stubs=_IO_STUBS,
+    assumptions=["the shim is the file-system + BufReader contract; std's buffering, memchr and UTF-8 validation are trusted (running them symbolically did not conclude in 40 min for a 3-byte file, probe 21)"],
+    outside=["appends that cut a multi-byte UTF-8 character (read_line returns InvalidData and following stops silently: a known weakness that this ASCII alphabet does not reach)", "seek to end without --head, the executor around the iterator", "files longer than 3 bytes"])
+_EXEC_STUBS = _IO_STUBS + ["ExecutionEngine::execute -> logs the line it is given (update calls) / notes the final-result call, emits nothing",
+                           "the user's interrupt: the shared running flag is cleared inside the engine stub once k lines have been consumed (k symbolic, k = 0: before the run)", "regex::Regex::new -> Err (unreached)"]
+PROPS["C12"] = dict(
+    harnesses=[H("c12_two_files_every_line_once", "executor", "executor::verif_kani", shape="two files of <= 3 and <= 2 bytes over {a, \\n, \\r}", timeout=1500, cost=600, env_stubbed=True)],
+    functions=["FileExecutor::execute (src/executor.rs): reader loop, statistics", "std::io::Lines::next (real: newline / CRLF stripping) over the shim's read_line"],
+    bounds={"files": "2, of <= 3 and <= 2 bytes", "alphabet": "a, newline, carriage return (first two positions)"},
+    stubs=_EXEC_STUBS, assumptions=["the engine below the executor is a logging stub"],
+    outside=["lines that are not valid UTF-8 (the Err from lines() leaves the inner loop silently: a known weakness, not exercised)", "JoinedTableData::execute's twin loop, main's file list", "more than two files / longer files"])
+PROPS["C19"] = dict(
+    harnesses=[H("c19_interrupt_select", "executor", "executor::verif_kani", shape="plain query, 2 files, interrupt after k lines (k = 0..6)", timeout=1500, cost=600, env_stubbed=True),
+               H("c19_interrupt_aggregate", "executor", "executor::verif_kani", shape="aggregate query, 2 files, interrupt after k lines", timeout=1500, cost=600, env_stubbed=True)],
+    functions=["FileExecutor::execute (src/executor.rs): running check per line, final aggregate result after the loops"],
+    bounds={"files": "2, of <= 3 and <= 2 bytes over {a, newline}", "interrupt point": "after any number k of consumed lines, or before the run"},
+    stubs=_EXEC_STUBS, assumptions=["the flag is read sequentially (Kani does not model threads); the ctrl-c handler and signal delivery are outside"],
+    outside=["the joined-file loader's 'every 10th line' check", "FollowFileExecutor's per-line check", "printed records being a prefix (the engine stub emits nothing; the prefix property follows from 'no line after the interrupt')"])
+
+# ------------------------------------------------------------------------------------- C09 / C17
+PROPS["C09"] = dict(
+    harnesses=[H("c09_create_timestamp_total", "c09", ROOT + "::c09", shape="create_timestamp(any i32, any u32 x6) under any time-zone answer", timeout=600, cost=60),
+               H("c09_json_value_real_total", "c09", ROOT + "::c09", shape="REAL -> JSON for every f64 (NaN, infinities)", timeout=600, cost=60),
+               H("c03_arith_add_int_int", "execution", EX, shape="evaluate: INT + INT, full range", timeout=900, cost=80),
+               H("c03_arith_sub_int_int", "execution", EX, shape="evaluate: INT - INT, full range", timeout=900, cost=80, tier="thorough"),
+               H("c03_arith_mul_int_int", "execution", EX, shape="evaluate: INT * INT (multiplier -16..16)", timeout=900, cost=400, tier="thorough"),
+               H("c03_arith_div_int_int", "execution", EX, shape="evaluate: INT / INT (divisor -16..16: zero divisor, MIN / -1)", timeout=900, cost=400, tier="thorough"),
+               H("c03_unary_neg_int", "execution", EX, shape="evaluate: -INT", timeout=900, cost=30),
+               H("c03_fn_abs_int", "execution", EX, shape="evaluate: abs(INT)", timeout=900, cost=40),
+               H("c09_fold_sum_int_overflow", "aggregate_execution", AG, shape="SUM over two full-range INTs", timeout=900, cost=120),
+               H("c09_fold_avg_int_overflow", "aggregate_execution", AG, shape="AVG over two full-range INTs", timeout=900, cost=120)],
+    functions=["create_timestamp, ValueType::parse (Timestamp arm), Value::json_value (src/model.rs)", "ExpressionExecutionEngine::evaluate integer kernels (src/execution/expression_execution.rs)",
+               "GroupAggregator::update running sums (src/execution/aggregate_execution.rs)"],
+    bounds={"time zone": "symbolic: a local time maps to no instant, one, or two, with any offsets within a day", "integers": "all i64 (divisor / multiplier -16..=16)", "REAL": "all f64 bit patterns"},
+    stubs=_EVAL_STUBS + ["chrono::NaiveDateTime::parse_from_str -> arbitrary Ok(datetime) | Err"],
+    assumptions=["C09 is the union of CBMC's automatic checks (arithmetic overflow, division by zero, index out of bounds, unwrap / expect / panic! reachability) over these harnesses and over every harness of the other properties"],
+    outside=["hangs (no termination argument beyond loop bounds)", "arbitrary bytes through the regex engine and serde_json", "TIMESTAMP literals under a symbolic zone (c09_parse_timestamp_any_zone exhausts 14 GB in chrono's offset arithmetic; the DST-gap panic it targets was confirmed natively under TZ=Europe/Stockholm and repaired in 5f05aa0)", "timestamp part casts (`value as u32`, `* 1000`) in data_model.rs, INTERVAL literals with huge parts, date_trunc's unwrap chain, Display of intervals: harnesses not built",
+             "the group table (accept_group indexing, result_rows_by_column[0])", "the CLI process"])
+PROPS["C17"] = dict(
+    harnesses=[H("c17_json_value_scalars", "c09", ROOT + "::c09", shape="INT / BOOLEAN / NULL -> JSON", timeout=600, cost=60),
+               H("c09_json_value_real_total", "c09", ROOT + "::c09", shape="finite REAL -> JSON number, exact", timeout=600, cost=60),
+               H("c17_print_text_records", "executor", "executor::verif_kani", shape="text format: 0..2 rows x 1..2 columns, first column `input` or not, single_result symbolic", timeout=1500, cost=600, env_stubbed=True),
+               H("c17_print_csv_header_once", "executor", "executor::verif_kani", shape="CSV: two print calls of 1..2 and 0..2 rows", timeout=1500, cost=600, env_stubbed=True)],
+    functions=["Value::json_value (src/model.rs)", "OutputPrinter::print (src/executor.rs) with the real format!/join for names and delimiters"],
+    bounds={"rows": "0..2 per print call, 2 print calls (CSV)", "columns": "1..2, names `input` / x / y", "values": "INT / NULL (their text is cut to empty: records are identified by length)"},
+    stubs=["<Value as Display>::fmt -> writes nothing (the characters of values are outside the claim)"],
+    assumptions=[],
+    outside=["the characters of text / CSV fields, JSON escaping and key order (core::fmt number formatting, serde_json's writer, IndexMap)", "arrays, timestamps, intervals as JSON", "more than 2 rows / columns"])
